@@ -121,7 +121,8 @@ def parseOp (impl : String) : List String → Option (Op Int)
 
 def step (st : S) (toks : List String) (impl : String) : S × String × String :=
   match toks with
-  | ["reset"] =>
+  | "reset" :: _ =>
+    -- `reset str`: the harness runs `Set[string]` with the integers converted to strings and back (a bijection)
     let st : S := {}
     let line := s!"- - | {fmtModelRegs st.m} | -"
     (st, line, verdict (s!"- - | {fmtSpecRegs st.s} | -" == impl) "spec: reset")
